@@ -34,6 +34,12 @@ TRUSTED = [
     "are pure, total and stable during the call; `worker` stands for its truthiness - TestWorker defines neither "
     "__bool__ nor __len__); Props.C04.shapeOfField restates how Driver/Trav.lean parses the `shape=` field; the three "
     "pinned bodies are mirrored by hand in scopeCount (tied by the correspondence run only)",
+    "GenScope.lean also holds genIsOccupied, regenerated from TestNode.is_occupied (the threshold "
+    "max(get_numeric('max_concurrent_tries', get_numeric('max_tries', 1)), 1) handed to is_started); "
+    "isOccupied_matches_source proves the model's isOccupied equal to it, with Props.C04.mctParam saying what the "
+    "parameter max_concurrent_tries is in a state of the model (static value, or the result of the bump assignments — "
+    "mctParam_bump).  Trusted: get_numeric(key, d) of the real Params is the exported integer or d (the harness exports "
+    "mct / maxTries as integers; a non-integer value raises in the real code and is outside the model)",
 ]
 CORPUS = os.path.join(vlib.VERIF, "corpus", PROP)
 
@@ -66,4 +72,5 @@ def extract(ctx):
     if pygen.extract_scope(ctx):
         ctx.notes.append("I2N/Extracted/GenScope.lean changed: the scope selection of TestNode.is_started / is_finished "
                          "(or travlib.shape_of) differs from the one the committed file was generated from")
-    ctx.extra["regenerated"] = "lean/I2N/Extracted/GenScope.lean (TestNode.is_started, is_finished, travlib.shape_of via harness/pygen.py)"
+    ctx.extra["regenerated"] = ("lean/I2N/Extracted/GenScope.lean (TestNode.is_started, is_finished, is_occupied, "
+                                "travlib.shape_of via harness/pygen.py)")
